@@ -349,6 +349,13 @@ const JUNK: &[&str] = &[
     "/[/$script",
     "a.com#%#alert(1)",
     "a.com#$#body { }",
+    "[zoneid]=",
+    "[ad-slot]",
+    "[Adblock",
+    "[x",
+    "!",
+    "!##.x",
+    "! Title: t",
     "x$domain=/re/",
     "\u{feff}",
     "a",
@@ -418,9 +425,18 @@ fn independence(ctx: &mut Ctx) {
             let rejected = lines.len() - accepted.len();
             let e1 = engine_from(&lines, opts, debug, optimize);
             let e2 = engine_from(&accepted, opts, debug, optimize);
-            let reqs: Vec<gen::Req> = (0..5).map(|_| gen_request(&mut r, &accepted)).collect();
-            let same_bytes = e1.serialize_raw().ok() == e2.serialize_raw().ok();
-            let same_battery = battery(&e1, &reqs) == battery(&e2, &reqs);
+            // third reading: every line on its own through the single-rule entry point
+            let mut fs = FilterSet::new(debug);
+            for l in &lines {
+                let _ = fs.add_filter(l, opts);
+            }
+            let e3 = Engine::from_filter_set(fs, optimize);
+            let mut reqs: Vec<gen::Req> = (0..5).map(|_| gen_request(&mut r, &accepted)).collect();
+            reqs.push(gen::Req { url: "https://cdn.example/serve?params[zoneid]=5&[ad-slot]".into(), source: "https://example.com/".into(), rtype: "script" });
+            let b1 = battery(&e1, &reqs);
+            let bytes1 = e1.serialize_raw().ok();
+            let same_bytes = bytes1 == e2.serialize_raw().ok() && bytes1 == e3.serialize_raw().ok();
+            let same_battery = b1 == battery(&e2, &reqs) && b1 == battery(&e3, &reqs);
             (lines, accepted, rejected, same_bytes, same_battery)
         });
         match out {
